@@ -241,8 +241,8 @@ def earlier_variant(code, how):
     """A text from which ``code`` is reached by a line-level edit (lines inserted / deleted / changed above, inside or below)."""
     lines = ref_split_lines(code, True)
     n = len(lines)
-    k = how % 7
-    mid = (how // 7) % (n + 1)
+    k = how % 9
+    mid = (how // 9) % (n + 1)
     nl = '\r\n' if '\r\n' in code else ('\r' if '\r' in code and '\n' not in code else '\n')
     if k == 0:
         return ''.join(lines[:mid] + ['pass' + nl] + lines[mid:])
@@ -256,10 +256,34 @@ def earlier_variant(code, how):
         return ''.join(lines[min(mid, n - 1) + 1:]) if n > 1 else 'x = 1' + nl
     if k == 5:
         return ''.join(lines[:mid] + ['def _f(a):' + nl, '    return "s"' + nl] + lines[mid:]) + nl + 'y' + nl
+    if k in (7, 8) and mid > 0:
+        # the line above had an indented body (one or two lines) that the edit removed
+        prev = lines[mid - 1]
+        ind = prev[:len(prev) - len(prev.lstrip(' \t'))] + ('    ' if k == 7 else '\t')
+        body = [ind + 'x' + nl] + ([ind + 'return' + nl] if how % 2 else [])
+        if not prev.endswith(('\n', '\r')):
+            body[0] = nl + body[0]
+        return ''.join(lines[:mid] + body + lines[mid:])
     return ''.join(lines[:mid])
 
 
-def tree_via(g, code, provenance, how, key, observe):
+def delete_block(code, how):
+    """``code`` without the block (the run of deeper indented or blank lines) below one of its lines that has one; None if there is none."""
+    lines = ref_split_lines(code, True)
+
+    def ind(l):
+        return len(l) - len(l.lstrip(' \t'))
+    heads = [i for i in range(len(lines) - 1) if lines[i].strip() and lines[i + 1].strip() and ind(lines[i + 1]) > ind(lines[i])]
+    if not heads:
+        return None
+    i = heads[how % len(heads)]
+    j = i + 1
+    while j < len(lines) and (not lines[j].strip() or ind(lines[j]) > ind(lines[i])):
+        j += 1
+    return ''.join(lines[:i + 1] + lines[j:])
+
+
+def tree_via(g, code, provenance, how, key, observe, same_shape_only=True):
     """Returns (module, provenance actually used).  Falls back to the fresh tree (and says so) when the in-place update
     gives another tree shape than the fresh parse - that divergence is C04's subject and is reported there."""
     import pickle as _pickle
@@ -289,7 +313,7 @@ def tree_via(g, code, provenance, how, key, observe):
         md = g.parse(code, diff_cache=True, path=path)
     finally:
         pcache.parser_cache.get(g._hashed, {}).pop(path, None)
-    if earlier != code and tree_shape(md) == tree_shape(fresh):
+    if earlier != code and (not same_shape_only or tree_shape(md) == tree_shape(fresh)):
         return md, 'diffed'
     return fresh, 'fresh(diff-fallback)'
 
